@@ -86,8 +86,12 @@ def gen_api(rng, inc_only=False, singleton=False):
                 ops.append(["set", rng.choice(KEYS), rng.randint(0, 50)])
             elif r < 0.80:
                 ops.append(["reset"])
-            elif r < 0.91:
+            elif r < 0.87:
                 ops.append(["cget"])
+            elif r < 0.93:
+                ops.append(["scget"])
+            elif r < 0.95:
+                ops.append(["screset"])
             elif r < 0.97:
                 ops.append(["creset"])
             else:
